@@ -76,7 +76,7 @@ func TestVerif_C05_h2write(t *testing.T) {
 		return c05pick(r, uint32(0), 1, 2, 0x7fffffff, 0x80000000, 0xffffffff, r.Uint32(), r.Uint32()>>uint(r.Intn(32)))
 	}
 	rb := func(n int) []byte { return []byte(verifh.RandBytes(r, n, "")) }
-	n := verifh.N(6000, 300000)
+	n := verifh.N(6000, 150000)
 	for c := 0; c < n; c++ {
 		allow := r.Intn(5) == 0
 		var fb, xb bytes.Buffer
@@ -88,6 +88,9 @@ func TestVerif_C05_h2write(t *testing.T) {
 		var ferr, xerr error
 		a := c05b01(allow)
 		op := c % 13
+		if op == 12 && c >= 13*600 {
+			op = r.Intn(12) // the 64 KiB payload class is sampled 600 times, not more (line size)
+		}
 		switch op {
 		case 0: // WriteData / WriteDataPadded
 			sid := sidOf()
